@@ -22,6 +22,13 @@ DETECT = {
          "note": "first run: only no-failing-input-found (rq/uq differed at the close; the history ended before the wrong id reached the wire). Two strengthenings because of this seed: (1) after a divergence the driver now searches for a failing input by draining the diverged state through a well-behaved broker (reconnect with session present, acknowledge everything, close, reconnect, drain again) so that a state difference reaches the wire; (2) monitor 602 states the retransmission-identifier clause of C06 directly"},
  "C08": {"checks": "./check C08", "result": "VIOLATION with failing input: monitor 801 (the engine reports no service time although the high-priority queue holds sendable work) + lock-step difference in nst", "note": ""},
  "C10": {"checks": "./check C10", "result": "VIOLATION with failing input: monitor 1001 (a user-queue operation is transmitted while a retransmission is still waiting) + lock-step differences", "note": ""},
+ "C12": {"checks": "./check C12", "result": "VIOLATION with failing input: the event-grammar monitor of the client area rejects the stream Attempt, Success, Disconnection, Attempt, Disconnection (a handshake that fails after an earlier successful connection is reported as Disconnection) + lock-step difference with Client/Impl.v", "note": ""},
+ "C13": {"checks": "./check C13", "result": "VIOLATION with failing input: bytes read through the websocket wrapper differ from the concatenated message payloads when a message is longer than the space left in the read buffer", "note": ""},
+ "C15": {"checks": "./check C15", "result": "VIOLATION with failing input: monitor 1502 (an operation of a kind the policy rejects, submitted while the CONNACK is awaited, is queued instead of failed) + lock-step differences",
+         "note": "first run: only no-failing-input-found (85% of the histories diverged but monitor 1501 only judged failures that DID happen and the close-time state). Monitor 1502 (submission-time clause of C15, using the protocol state before the call) was written because of this seed"},
+ "C17": {"checks": "./check C17", "result": "VIOLATION with failing input: resolver area — the LRU resolver model and implementation disagree and the server-side table reconstruction gives a different topic (LRU capacity larger than the server's Topic Alias Maximum, return to an evicted topic); engine area monitor 1701", "note": ""},
+ "C18": {"checks": "./check C18", "result": "VIOLATION with failing input: monitor 1803 (an operation whose ack deadline has passed is still incomplete after a successful service call) + lock-step difference in nst / tmo",
+         "note": "first run: only no-failing-input-found: monitor 1801 stated 'never earlier' and 'never without a timeout' but not 'not later'. Monitor 1803 (mon_c18_late) was written because of this seed"},
 }
 sid = sys.argv[1]
 d = "/verif/seeded/%s" % sid
